@@ -155,6 +155,7 @@ const (
 type refErr struct {
 	Kind string
 	Pos  int
+	Inc  bool // the failing representation is a literal with incremental indexing
 }
 
 func (e *refErr) Error() string { return fmt.Sprintf("ref: %s at %d", e.Kind, e.Pos) }
@@ -342,7 +343,15 @@ func (r *refDec) readString(p []byte, pos int) (string, int, string) {
 
 // decodeBlock decodes one complete header block.
 func (r *refDec) decodeBlock(p []byte) ([]hf, *refErr) {
+	out, _, e := r.decodeBlockEx(p)
+	return out, e
+}
+
+// decodeBlockEx additionally returns, for every emitted field, the offset just
+// after its representation (needed to model SetEmitEnabled toggles between fragments).
+func (r *refDec) decodeBlockEx(p []byte) ([]hf, []int, *refErr) {
 	var out []hf
+	var ends []int
 	pos := 0
 	sawField := false
 	for pos < len(p) {
@@ -352,25 +361,26 @@ func (r *refDec) decodeBlock(p []byte) ([]hf, *refErr) {
 		case b&0x80 != 0: // 6.1 indexed
 			idx, np, e := refReadInt(p, pos, 7)
 			if e != "" {
-				return nil, &refErr{e, start}
+				return nil, nil, &refErr{Kind: e, Pos: start, Inc: p[start]&0xc0 == 0x40}
 			}
 			f, e := r.at(idx)
 			if e != "" {
-				return nil, &refErr{e, start}
+				return nil, nil, &refErr{Kind: e, Pos: start, Inc: p[start]&0xc0 == 0x40}
 			}
 			pos = np
 			out = append(out, hf{Name: f.Name, Value: f.Value})
+			ends = append(ends, pos)
 			sawField = true
 		case b&0xe0 == 0x20: // 6.3 size update
 			if sawField {
-				return nil, &refErr{kSizeUpdatePos, start}
+				return nil, nil, &refErr{Kind: kSizeUpdatePos, Pos: start}
 			}
 			v, np, e := refReadInt(p, pos, 5)
 			if e != "" {
-				return nil, &refErr{e, start}
+				return nil, nil, &refErr{Kind: e, Pos: start, Inc: p[start]&0xc0 == 0x40}
 			}
 			if v > uint64(r.allowed) {
-				return nil, &refErr{kSizeTooLarge, start}
+				return nil, nil, &refErr{Kind: kSizeTooLarge, Pos: start}
 			}
 			pos = np
 			r.max = uint32(v)
@@ -384,35 +394,36 @@ func (r *refDec) decodeBlock(p []byte) ([]hf, *refErr) {
 			}
 			idx, np, e := refReadInt(p, pos, prefix)
 			if e != "" {
-				return nil, &refErr{e, start}
+				return nil, nil, &refErr{Kind: e, Pos: start, Inc: p[start]&0xc0 == 0x40}
 			}
 			pos = np
 			var f hf
 			if idx != 0 {
 				nf, e := r.at(idx)
 				if e != "" {
-					return nil, &refErr{e, start}
+					return nil, nil, &refErr{Kind: e, Pos: start, Inc: p[start]&0xc0 == 0x40}
 				}
 				f.Name = nf.Name
 			} else {
 				f.Name, pos, e = r.readString(p, pos)
 				if e != "" {
-					return nil, &refErr{e, start}
+					return nil, nil, &refErr{Kind: e, Pos: start, Inc: p[start]&0xc0 == 0x40}
 				}
 			}
 			f.Value, pos, e = r.readString(p, pos)
 			if e != "" {
-				return nil, &refErr{e, start}
+				return nil, nil, &refErr{Kind: e, Pos: start, Inc: p[start]&0xc0 == 0x40}
 			}
 			if inc {
 				r.add(f)
 			}
 			f.Sensitive = never
 			out = append(out, f)
+			ends = append(ends, pos)
 			sawField = true
 		}
 	}
-	return out, nil
+	return out, ends, nil
 }
 
 // ---- encoding helpers used by the generators (not by any oracle) ----
